@@ -1,4 +1,5 @@
 mod conc;
+mod enc;
 mod eval;
 mod extkey;
 mod group;
@@ -352,6 +353,44 @@ fn main() {
                 hs.into_iter().map(|h| h.join().unwrap()).collect()
             });
             println!("{}", json!({"results": results}));
+        }
+        "encoding" => {
+            let sel = select_suites(&all, &args.get("suites", "quick"), seed);
+            let f = std::fs::File::open(args.get("pairs", "")).expect("pairs");
+            let mut pairs = Vec::new();
+            let mut lengths: Vec<(usize, bool)> = Vec::new();
+            for line in std::io::BufReader::new(f).lines() {
+                let v: Value = serde_json::from_str(&line.unwrap()).unwrap();
+                if v.get("kind").is_some() {
+                    pairs.push((v["kind"].as_str().unwrap().to_string(), enc::triple(&v["A"]), enc::triple(&v["B"])));
+                } else if let Some(o) = v.as_object() {
+                    for (k, e) in o {
+                        lengths.push((k.parse().unwrap(), e.as_bool().unwrap()));
+                    }
+                }
+            }
+            let max = args.num("max-pairs", 400) as usize;
+            if pairs.len() > max {
+                // seeded sample
+                let mut rng = record::Prng(seed ^ 0xe17c);
+                let mut pick = Vec::new();
+                for _ in 0..max {
+                    pick.push(pairs[rng.below(pairs.len())].clone());
+                }
+                pairs = pick;
+            }
+            let results: Vec<Value> = std::thread::scope(|sc| {
+                let hs: Vec<_> = sel.iter().map(|s| {
+                    let (pairs, lengths) = (&pairs, &lengths);
+                    sc.spawn(move || {
+                        let o = enc::run(*s, seed, pairs, lengths);
+                        json!({"suite": s.name(), "flows": o.flows, "accepted": o.accepted, "rejected": o.rejected,
+                               "refused": o.refused, "violations": o.violations})
+                    })
+                }).collect();
+                hs.into_iter().map(|h| h.join().unwrap()).collect()
+            });
+            println!("{}", json!({"pairs": pairs.len(), "results": results}));
         }
         "wire-replay" => {
             let v: Value = serde_json::from_str(&std::fs::read_to_string(args.get("file", "")).expect("replay file")).unwrap();
